@@ -365,6 +365,7 @@ impl Sparse<f64> {
             iter += 1;
             self.identity_preconditioner( &rr, &mut zz );
             let rho_1 = z.dot( &rr );
+            let started = fresh;
             if fresh {
                 p = z.clone();
                 pp = zz.clone();
@@ -376,6 +377,20 @@ impl Sparse<f64> {
             }
             z = self.multiply( &p );
             let alpha = rho_1 / z.dot( &pp );
+            if rho_1 == 0.0 || !alpha.is_finite() {
+                // A breakdown of the Lanczos process ( regular once the Krylov space is exhausted ): the
+                // step is undefined. Restart from the residual x really has, unless the recurrences
+                // have only just been started
+                if started { return Err( err ); }
+                r = b.clone() - self.multiply( x );
+                self.identity_preconditioner( &r, &mut z );
+                if itol == 1 { err = r.norm_2() / bnrm; }
+                if itol == 2 { err = z.norm_2() / bnrm; }
+                if err <= tol && Self::all_finite( x ) { return Ok( iter - 1 ); }
+                rr = r.clone();
+                fresh = true;
+                continue;
+            }
             zz = self.transpose_multiply( &pp );
             *x += p.clone() * alpha;
             r -= z.clone() * alpha;
